@@ -14,6 +14,38 @@ CHECKS = {
    tech="Lean 4 proof (induction over the position list with a running-count invariant) + exact differential correspondence of the model with the Python code",
    ref="DESIGN.md §3 C07"),
 }
+CHECKS.update({
+ 'C01': dict(
+   text="Oracle-parametric Lean theorems (for ALL cost/distance/ordering/global-cost oracle values, ALL n>=2, ALL k, m, threshold lists): rdp_total_wf "
+        "(fuel 2n never exhausted; strictly increasing 0..n-1; removed table = compute_removed_points; retained+dropped=n), rdp_steps_linear (<= 2n-3 "
+        "iterations), fixed_wf, grdp_total_wf, mp_wf, minpoint_wf (state invariant RInv of the shared refinement step). Tie to /repo: exact equality of "
+        "(reduced, removed) for 5 entry points x 2 distances x 5 metrics x 3 orders with oracle values taken from the package's own public primitives, "
+        "plus while-iteration counts (sys.monitoring) against the linear bound.",
+   note=TB + " Oracle values: IEEE rounding inside the primitives is not modelled - theorems quantify over all values. Domain: n>=2, t>0 (t<=1 for R2).",
+   tech="Lean 4 proof (chain invariant + potential; permutation invariant of the keyed work stack) + exact oracle-fed differential correspondence",
+   ref="DESIGN.md §3 C01"),
+ 'C04': dict(
+   text="Lean theorem rdp_is_recursive_partition: for all oracles, the loop's output admits a derivation in the inductive nondeterministic RDP specification "
+        "IsRDP (leaf = accepting cost; node = rejecting cost, split strictly inside at a farthest interior point); corollaries retained_segment_accepts, "
+        "retained_interior_explained, partition_tiles. Tie: exact oracle-fed correspondence of rdp.rdp + a tolerant recursive explainer on the real output.",
+   note=TB + " 'farther' is compared on the oracle values the code itself saw (exact); the explainer on the real output grants 1e-9 relative rounding noise.",
+   tech="Lean 4 proof (induction on fuel producing an inductive derivation) + exact oracle-fed differential correspondence",
+   ref="DESIGN.md §3 C04"),
+ 'C05': dict(
+   text="Lean theorems fixed_card (|S_k| = min(max(k,2),n) for every k) and fixed_nested_greedy (S_{k+1} = S_k + one new index strictly inside the top "
+        "segment of the work stack; the stack is exactly the retained segments with interior points and its top has the maximal recorded score; the index is the "
+        "eps-guarded farthest interior point), for all oracles. Tie: exact correspondence of rdp_fixed for every k in 0..n+1 per curve + direct predicate.",
+   note=TB + " Python's stable list.sort is modelled by a stable insertion sort (sortKeyed_perm/sortKeyed_sorted proved).",
+   tech="Lean 4 proof (loop invariant: stack ~ gaps(reduced), sorted by key) + exact oracle-fed differential correspondence over the whole chain k=0..n+1",
+   ref="DESIGN.md §3 C05"),
+ 'C06': dict(
+   text="Lean theorems grdp_eq_first (grdp = S_k for the least k>=2 whose global cost is accepted, all points if none), mp_eq (S_max(k*,min(m,n))), minpoint_eq "
+        "(first threshold in descending order with >= m points, else S_m), acceptOf_mono; for every acceptance predicate/oracle. Tie: exact correspondence with a lazily "
+        "asked compute_global_cost oracle (fresh cache) + predicate built from real rdp_fixed/compute_global_cost calls.",
+   note=TB,
+   tech="Lean 4 proof (global loop = first accepted prefix of the fixed-size refinement sequence) + exact oracle-fed differential correspondence",
+   ref="DESIGN.md §3 C06"),
+})
 NA = {}
 props = [json.loads(l) for l in open(os.path.join(V, 'properties.jsonl'))]
 checks = []
